@@ -6,6 +6,7 @@ publication of what supersedes it, every prefix state is consistent.  The obliga
 ordering facts, as ghost preconditions / assertion sites on the real functions."""
 from pyvc.contract import REGISTRY, class_spec, contract
 from contracts.c07_file import ANY
+import contracts.c08_refs  # noqa: F401  (registers the commit / ref contracts extended below)
 
 OS = "dulwich/object_store.py"
 
